@@ -103,6 +103,21 @@ func SynthPayload(r *core.Rng, big bool, foreign int) ([]byte, *ExifRec, Built) 
 	return bt.Bytes, rec, bt
 }
 
+// dedupDir keeps the last entry of every tag id.
+func dedupDir(d *Dir) {
+	last := map[uint16]int{}
+	for i, e := range d.Entries {
+		last[e.Tag] = i
+	}
+	keep := d.Entries[:0]
+	for i, e := range d.Entries {
+		if last[e.Tag] == i {
+			keep = append(keep, e)
+		}
+	}
+	d.Entries = keep
+}
+
 // SynthFiles generates one well-formed file of every container kind from the seed.
 func SynthFiles(seed uint64, n int) []File {
 	var out []File
@@ -138,6 +153,19 @@ func SynthFiles(seed uint64, n int) []File {
 		cr3 := BuildCR3(r, CR3Parts{CMT1: mk(rec2.IFD0), CMT2: mk(rec2.Exif), CMT3: mk(&Dir{Kind: KOther}), CMT4: mk(rec2.GPS), XMP: xmp,
 			Preview: append([]byte{0xFF, 0xD8}, r.Bytes(r.Range(100, 5000))...), PrvwW: 1620, PrvwH: 1080, CTBOOver: (i % 2) * 3}, 1, i%3 == 2)
 		add("synth/cr3-"+sfx, cr3.Bytes)
+		if i < 2 {
+			// preview box last (no trailing mdat), preview large enough for direct reads
+			c2 := BuildCR3(r, CR3Parts{CMT1: mk(rec2.IFD0), CMT2: mk(rec2.Exif), CMT4: mk(rec2.GPS), XMP: xmp,
+				Preview: append([]byte{0xFF, 0xD8}, r.Bytes(r.Range(20000, 50000))...), PrvwW: 1620, PrvwH: 1080, NoMdat: true}, 0, false)
+			add("synth/cr3-prvwlast-"+sfx, c2.Bytes)
+			// few entries, long strings: values longer than everything read before them
+			rec3 := GenExifRec(r, RecOpts{Density: 35, LongStrings: true})
+			for _, id := range []uint16{0x010e, 0x0131, 0x013b, 0x8298} {
+				rec3.IFD0.Add(id+0, ASCII(strings.Repeat(string(rune('A'+i)), 150)+XText(r, r.Range(50, 700))))
+			}
+			dedupDir(rec3.IFD0)
+			add("synth/tiff-longstrings-"+sfx, BuildTIFF(rec3.Assemble(true), Layout{Big: big, FirstOff: 8, MaxPad: 0, Order: 0, R: r}).Bytes)
+		}
 		add("synth/heif-"+sfx, BuildHEIF(r, tiff, i))
 		add("synth/xmp-"+sfx, xmp)
 	}
